@@ -97,6 +97,9 @@ let () =
     (try
       toks := Array.of_list (List.filter (fun s -> s <> "") (split_line line));
       pos := 0;
+      (* LFOLD prefix: the characters callback before the LF-hack fix (Model/XmlFrontLfOld.v) *)
+      let old_lf = (Array.length !toks > 0 && !toks.(0) = "LFOLD") in
+      if old_lf then begin toks := Array.sub !toks 1 (Array.length !toks - 1) end;
       if !toks.(0) = "V" then begin
         (* events mode:  V <lang> <n> node*   ->   EVS <canonical 0|1> <events of the tree, notation of the harness>
            (canonical: root_canon with no embedded tree accepted) *)
@@ -172,7 +175,7 @@ let () =
           match Hashtbl.find_opt subs h with
           | Some a -> a
           | None -> missing := h :: !missing; Inr (n_of_int 996) in
-        let c = run main_table sub [n_of_int 120] init_ctx events in
+        let c = (if old_lf then run_old else run) main_table sub [n_of_int 120] init_ctx events in
         (match !missing with
          | _ :: _ -> Printf.printf "NEED %s\n" (List.hd (List.rev !missing))
          | [] ->
@@ -208,7 +211,7 @@ let () =
         match Hashtbl.find_opt subs h with
         | Some a -> a
         | None -> missing := h :: !missing; Inr (n_of_int 996) in
-      let r = tree_from_xml main_table sub input events st in
+      let r = (if old_lf then tree_from_xml_old else tree_from_xml) main_table sub input events st in
       (match !missing with
        | h :: _ -> Printf.printf "NEED %s\n" (List.hd (List.rev !missing))
        | [] ->
